@@ -182,6 +182,8 @@ pub trait DM {
 	/// bit-exact route (NaN-capable), see sv.rs
 	fn ser_b(&self) -> Result<SV, String>;
 	fn de_b(&self, v: &SV) -> Result<Box<dyn DM>, String>;
+	/// positional flavour (structs as sequences), see sv.rs
+	fn ser_p(&self) -> Result<SV, String>;
 	fn bclone(&self) -> Box<dyn DM>;
 }
 
@@ -366,6 +368,9 @@ macro_rules! dm {
 			fn de_b(&self, v: &SV) -> Result<Box<dyn DM>, String> {
 				let t: $ty = crate::sv::from_sv(v)?;
 				Ok(Box::new($w(t)))
+			}
+			fn ser_p(&self) -> Result<SV, String> {
+				crate::sv::to_sv_positional(&self.0)
 			}
 			fn bclone(&self) -> Box<dyn DM> {
 				Box::new(self.clone())
